@@ -19,7 +19,7 @@ from ..refs import matrices as mx
 ID = "C11"
 TECHNIQUE = "bounded-exhaustive grid enumeration of degenerate symmetric inputs on the real eigen-based matrix_inverse_root; structural invariants (finite, symmetric, PD, eigenvalue cap, commutation, orthogonal equivariance) + must-raise enumeration of all small non-square/non-2D shapes"
 RULE = (
-    "n in {1,2,3,4,8,16[,5,7,12,32,64 thorough]} x spectra {zero, rankdef, neg(-1e-3), neg(-1e-6), neg(-1e-9), all-negative-tiny} x bases x scale {1e-4,1,1e4} x eps (3 values per dtype, never below the dtype "
+    "n in {1,2,3,4,5,8,16[,7,12,32,64 thorough]} x spectra {zero, rankdef, neg(-1e-3), neg(-1e-6), neg(-1e-9), all-negative-tiny} x bases x scale {1e-4,1,1e4} x eps (3 values per dtype, never below the dtype "
     "resolution of the scale) x roots {1,2,4,3/2,1/2,2/3,1001/997,317/211} x dtype {f32,f64} x {plain, enhance_stability, config carrying exponent_multiplier 1.82, eigen_decomp_offload_device cpu with and without enhance_stability}; equivariance under 6 orthogonal P per case; must-raise: all shapes (k,),(a,b) a!=b,(a,b,c) with entries <= 4 and numel > 1. "
     "state = the input tuple; non-trivial = input with a zero or negative eigenvalue"
 )
@@ -39,7 +39,7 @@ def bounds(tier):
 
 def ns_for(tier):
     # thorough adds odd / non-power-of-two sizes and the intermediate 32 next to 64
-    return [1, 2, 3, 4, 8, 16] + ([5, 7, 12, 32, 64] if tier == "thorough" else [])
+    return [1, 2, 3, 4, 5, 8, 16] + ([7, 12, 32, 64] if tier == "thorough" else [])
 
 
 def lam_for(sp, n):
